@@ -36,7 +36,9 @@ META = {
 TYPES = ['int', ['var'], ['list', ['var']], ['opt', ['var']], ['dict', ['var']], ['tuple', ['var']], ['tuplelit', ['var']],
          ['struct', ['var']], ['box', ['var']], ['annot', ['var']], ['pair', ['var']],
          # a generic dataclass below a container / Optional / condition, and through a re-parameterised alias (BoxL = Box[List[V]])
-         ['list', ['box', ['var']]], ['opt', ['box', ['var']]], ['dict', ['box', ['var']]], ['annot', ['box', ['var']]], ['boxl', ['var']]]
+         ['list', ['box', ['var']]], ['opt', ['box', ['var']]], ['dict', ['box', ['var']]], ['annot', ['box', ['var']]], ['boxl', ['var']],
+         # a union that mentions the variable next to an overlapping member, in both orders (members are tried left to right)
+         ['unionf', ['var']], ['funion', ['var']]]
 CONCRETE = ['int', 'str', 'float']
 VARNAMES = ['T', 'U', 'V', 'W']
 _TV = {n: t.TypeVar(n) for n in VARNAMES}
@@ -117,6 +119,10 @@ def build_type(pane, ty):
         return box_class(pane)[a]
     if h == 'pair':
         return pair_class(pane)[a, int]        # a two-parameter generic dataclass, partially re-parameterised
+    if h == 'unionf':
+        return t.Union[a, float]
+    if h == 'funion':
+        return t.Union[float, a]
     if h == 'boxl':
         if 'BL' not in _BOX:
             _BOX['BL'] = grammar.pin(box_class(pane)[t.List[_TV['V']]])       # BoxL = Box[List[V]], still generic in V
@@ -174,6 +180,8 @@ def sample(ty, good=True):
         return {'first': inner, 'second': 1}
     if h == 'boxl':
         return {'item': [inner]}
+    if h in ('unionf', 'funion'):
+        return inner if good else None          # (a wrong value for the variable may still be a float: no firm wrong sample)
     if h == 'annot':
         return inner
     raise KeyError(h)
@@ -544,6 +552,17 @@ def check_program(pane, res, idx, prog):
                                f"{desc} ({which}): from_data({good!r}) raised {type(e).__name__}: {core.sstr(e, 140)}", cell, cost)
             continue
         res['transitions'] += 1
+        # unions that mention the variable: the member order of the declaration decides (Union[T, float][int] keeps 3 an int,
+        # Union[float, T][int] makes it 3.0)
+        for f in eff:
+            if not isinstance(f['type'], str) and f['type'][0] in ('unionf', 'funion') and isinstance(f['type'][1], str) and not m.opts['custom']:
+                raw = sample(f['type'], True)
+                want_v = float(raw) if (f['type'][0] == 'funion' and type(raw) is int) else raw
+                got_v = getattr(x, f['name'])
+                if not values.typed_eq(got_v, want_v):
+                    core.add_violation(res, {'kind': 'union_member_order_after_substitution', 'shape': f['type'][0], **sig},
+                                       f"{desc} ({which}): field {f['name']}: {build_type(pane, f['type'])!r} converted {raw!r} to {got_v!r} "
+                                       f"({type(got_v).__name__}), expected {want_v!r} ({type(want_v).__name__})", cell, cost)
         # repr order
         rp = repr(x)
         order = [rp.find(f"{f['name']}=") for f in eff]
